@@ -106,10 +106,13 @@ class Folder:
             elif isinstance(r, Module):
                 v = r
             elif isinstance(r, tuple) and r[0] == "var":
-                vals = self.prog.var_values(r[1], r[2])
-                v = self.expr(vals[-1], {}, r[1]) if vals else Unknown("no value")
                 key2 = (r[1].name, r[2])
-                self._modvals[key2] = v
+                if key2 in self._modvals:
+                    v = self._modvals[key2]
+                else:
+                    vals = self.prog.var_values(r[1], r[2])
+                    v = self.expr(vals[-1], {}, r[1]) if vals else Unknown("no value")
+                    self._modvals[key2] = v
             else:
                 v = Unknown(f"unresolved name {name}")
             self._modvals[key] = v
